@@ -379,6 +379,7 @@ impl World {
     // ------------------------------------------------------------------ final delivery and convergence (C01)
     pub fn converge(&mut self, plan: &FinPlan) -> R<()> {
         let n = self.n();
+        let conv = self.is("C01") || self.is("C07");
         self.log.push("-- final phase".into());
         for i in 0..n {
             // leave time travel / staged state
@@ -416,7 +417,9 @@ impl World {
                     learned += self.reps[i].store.keys().len() - before;
                     let r = guard("refresh", || self.reps[i].m.refresh())?;
                     if let Err(e) = r {
-                        return viol("C01", format!("refresh during the final exchange failed: {}", e));
+                        if conv {
+                            return viol("C01", format!("refresh during the final exchange failed: {}", e));
+                        }
                     }
                     self.reps[i].traveled = false;
                 }
@@ -425,6 +428,9 @@ impl World {
                 break;
             }
             if rounds > n + 3 {
+                if !conv {
+                    break;
+                }
                 return viol("C01", format!("exchanging items in both directions did not reach a fixpoint within {} rounds", rounds));
             }
         }
@@ -433,7 +439,9 @@ impl World {
                 1 => {
                     let r = guard("reload", || self.reps[i].m.reload())?;
                     if let Err(e) = r {
-                        return viol("C01", format!("final reload failed: {}", e));
+                        if conv {
+                            return viol("C01", format!("final reload failed: {}", e));
+                        }
                     }
                 }
                 2 => self.op_reopen(i)?,
@@ -443,12 +451,18 @@ impl World {
         // same items everywhere?
         let k0 = self.reps[0].store.snap();
         for i in 1..n {
+            if !conv {
+                break;
+            }
             if self.reps[i].store.snap() != k0 {
                 return viol("C01", format!("after the exchange reached a fixpoint replicas 0 and {} hold different items", i));
             }
         }
         let o0 = obs(&self.reps[0].m)?;
         for i in 1..n {
+            if !conv {
+                break;
+            }
             let oi = obs(&self.reps[i].m)?;
             if oi != o0 {
                 return viol("C01", format!("replicas 0 and {} hold the same items but expose different state: {}", i, first_diff(&o0, &oi)));
@@ -457,6 +471,7 @@ impl World {
         // a fresh replica on a byte copy of the storage agrees too
         let copy = crate::store::HStore::from_snap(&k0);
         match open(copy.ad())? {
+            _ if !conv => {}
             Ok(m) => {
                 let of = obs(&m)?;
                 if of != o0 {
